@@ -70,8 +70,30 @@ pub fn strategy(max: usize) -> impl Strategy<Value = Case> {
         any::<u64>(),
         prop::collection::vec((size(max), framing(false), size(max), framing(true)), 1..5),
         (script::write_script(250), script::read_script(350), script::write_script(250), script::read_script(350)),
+        // slow drip: one body delivered in pieces 350..500 ms apart over more than the lab's front timeout (4 s)
+        // while no single gap comes near any timeout: a transfer that keeps moving must not be cut
+        proptest::option::weighted(0.04, (any::<bool>(), 11u16..14, 350u16..500, 200usize..3000)),
     )
-        .prop_map(|(seed, raw, (cw, cr, bw, br))| {
+        .prop_map(|(seed, mut raw, (mut cw, cr, mut bw, br), drip)| {
+            if let Some((response, pieces, gap, piece)) = drip {
+                raw.truncate(1);
+                let total = piece * pieces as usize;
+                let steps: Vec<script::WStep> = (0..pieces).flat_map(|_| [script::WStep::Write(piece), script::WStep::PauseMs(gap)]).collect();
+                if response {
+                    raw[0].2 = total;
+                    raw[0].3 = BodyFraming::ContentLength;
+                    // the head goes first, in one piece
+                    let mut st = vec![script::WStep::Write(60), script::WStep::PauseMs(gap)];
+                    st.extend(steps);
+                    bw = WriteScript { steps: st, sndbuf: None };
+                } else {
+                    raw[0].0 = total;
+                    raw[0].1 = BodyFraming::ContentLength;
+                    let mut st = vec![script::WStep::Write(100), script::WStep::PauseMs(gap)];
+                    st.extend(steps);
+                    cw = WriteScript { steps: st, sndbuf: None };
+                }
+            }
             let n = raw.len();
             let small_c = cr.rcvbuf.map(|v| v <= 2048).unwrap_or(false);
             let small_b = br.rcvbuf.map(|v| v <= 2048).unwrap_or(false);
@@ -102,6 +124,7 @@ fn near_boundary(n: usize) -> bool {
 
 pub fn scenario(lab: &mut HttpLab, case: &Case) -> CheckResult {
     let mut rep = CaseReport::default();
+    rep.class_if(case.client_write.total_pause_ms() > 4000 || case.backend_write.total_pause_ms() > 4000, "slow_drip_longer_than_front_timeout");
     if !lab.worker.alive() {
         return Err(Failure::new("C01/worker-died", format!("the worker thread is gone: {:?}", lab.worker.join())));
     }
